@@ -142,6 +142,9 @@ def _class_scope(tree, cls, side, depth=0):
         name = b.id if isinstance(b, ast.Name) else (b.attr if isinstance(b, ast.Attribute) else None)
         if name == 'object':
             continue
+        if isinstance(b, ast.Attribute) and isinstance(b.value, ast.Name) and b.value.id in ('abc', 'typing', 'enum', 'collections') \
+                and any(isinstance(st, ast.Import) and any((a.asname or a.name) == b.value.id for a in st.names) for st in tree.body):
+            continue        # abc.ABC, typing.NamedTuple, enum.Enum: standard-library bases that bind no attribute of ours
         if name is None or not isinstance(b, ast.Name):
             _UNRESOLVED[0] = True       # base.Base, a call, a subscript: not followed
             continue
@@ -236,7 +239,7 @@ def _sized(tree, cls, side, f):
     return out[0], out[1]
 
 
-def _ctx(tree, seqs, cls):
+def _ctx(tree, seqs, cls, unknown_base=False):
     others = set()
     if tree is not None:
         for c in ast.walk(tree):
@@ -244,7 +247,7 @@ def _ctx(tree, seqs, cls):
                 others |= {g.name for g in c.body if isinstance(g, (ast.FunctionDef, ast.AsyncFunctionDef))}
     glob = {x for n in ast.walk(tree) if isinstance(n, ast.Global) for x in n.names} if tree is not None else set()
     return {'mutable_globals': glob, 'module_bound': equiv.module_bound_names(tree) if tree is not None else (),
-            'all_props': equiv.module_all_properties(tree) if tree is not None else (),
+            'all_props': (set(equiv.module_all_properties(tree)) if tree is not None else set()) | ({'*'} if unknown_base else set()),
             'seqs': seqs, 'other_class_methods': others}
 
 
@@ -258,14 +261,15 @@ def canonical_pair(f, cls, rf, cls_r, new_helpers, gone_helpers, cur_consts, ref
     s1, s2 = (s1 & s2) | loc1, (s1 & s2) | loc2
     ql1, ql2 = {c for c in q1 if len(c) == 1}, {c for c in q2 if len(c) == 1}
     q1, q2 = (q1 & q2) | ql1, (q1 & q2) | ql2
-    if (u1 or u2) and (cls is not None or cls_r is not None):
-        return None, None       # a base class that cannot be read may define properties, overrides, attribute defaults
+    unknown_base = (u1 or u2) and (cls is not None or cls_r is not None)
+    # (a base class that cannot be read may define properties and attribute defaults: then nothing is known about the attributes
+    # of self - no sized facts, and every attribute may be a property reading any other)
     c1 = equiv.canonical(f, new_helpers, cur_consts, s1, cls.name if cls is not None else '', cur_props, equiv.module_dicts(cur_tree) if cur_tree is not None else None,
-                         ctx=_ctx(cur_tree, q1, cls))
+                         ctx=_ctx(cur_tree, q1, cls, unknown_base))
     if c1 is None:
         return None, None
     c2 = equiv.canonical(rf, gone_helpers, ref_consts, s2, cls_r.name if cls_r is not None else '', ref_props, equiv.module_dicts(ref_tree) if ref_tree is not None else None,
-                         ctx=_ctx(ref_tree, q2, cls_r))
+                         ctx=_ctx(ref_tree, q2, cls_r, unknown_base))
     return c1, c2
 
 
